@@ -37,7 +37,7 @@ func selftest(args []string) int {
 	var results []result
 	var mu sync.Mutex
 	var wg sync.WaitGroup
-	sem := make(chan struct{}, 4)
+	sem := make(chan struct{}, 2)
 	for _, f := range files {
 		data, err := os.ReadFile(f)
 		if err != nil {
